@@ -3,7 +3,8 @@
 \* (driver harness/cmd/updflow) against spec/UpdFlow.tla (extension check X08).  trace.ndjson, one JSON
 \* object per line:
 \*   {"e":"new","cfg":{online,usepre,nurls,auto:[..],mand:[..]},"ident":[..],"vers":[..],"names":[[..],..],"idx":[..]}
-\*   {"e":"op","op":{...},"res":{"err":..,"v":..,"pok":..,"panic":..},"obs":{...}}   one call, its result and what is
+\*   {"e":"op","op":{...},"res":{"err":..,"v":..,"err2":..,"v2":..,"pok":..,"panic":..},"obs":{...}}   one call (or the pair of
+\*        concurrent calls "Par": err = DownloadUpdates, err2/v2 = GetFile), its result and what is
 \*        observable afterwards:
 \*        res      per resource: known, l/av/cur/pre/bl (version ids of Export()), sel, act
 \*        files    [r, v] of the complete, correctly named files in the storage dir; odd = anything else found there,
@@ -56,9 +57,10 @@ Extra(s, x, ev) ==
     \cup NoteViolations(x.opid, x.u.att, p, t, ObsNotes(ev.obs.notes), ev.op.mode # "cancelled")
     \cup (IF ev.obs.state.id = "ready" /\ ev.obs.state.dn = -1 THEN {} ELSE {"state-not-ready-after-call"})
     \cup (IF ev.obs.odd = 0 THEN {} ELSE {"unexpected-files-or-entries"})
-    \cup (IF ev.op.op = "GetFile" /\ ev.res.err = "" /\ ~ev.res.pok THEN {"file-path"} ELSE {})
+    \cup (IF (ev.op.op = "GetFile" /\ ev.res.err = "" /\ ~ev.res.pok) \/ (ev.op.op = "Par" /\ ev.res.err2 = "" /\ ~ev.res.pok)
+          THEN {"file-path"} ELSE {})
 
-Candidates(s, ev) == IF ev.res.panic # "" THEN {} ELSE {x \in Step(s, ev.op) : ev.res.err \in x.errs /\ ev.res.v = x.v}
+Candidates(s, ev) == IF ev.res.panic # "" THEN {} ELSE {x \in Step(s, ev.op) : ev.res.err \in x.errs /\ ev.res.v = x.v /\ ev.res.err2 \in x.errs2 /\ ev.res.v2 = x.v2}
 
 \* the model states after the call for candidate state s ({} = s does not explain the call)
 Nexts(s, ev) ==
